@@ -37,7 +37,7 @@ func init() {
 	fw.Register(&fw.Prop{
 		ID:    "C16",
 		Level: "exploration",
-		Rule: "cases = scenarios with 2-6 writers (Write and streaming Writer) and 0-2 pingers kept running on a library endpoint while a close is caused by one of {local Close, peer Close frame, protocol violation, read limit, CloseRead + data message, NetConn wrong type, wsjson invalid document, concurrent Close calls, local Close crossing a peer Close} with the raw peer echoing early, late (while still sending pings and data) or never; " +
+		Rule: "cases = scenarios with 2-6 writers (Write and streaming Writer) and 0-2 pingers kept running on a library endpoint while a close is caused by one of {local Close, peer Close frame, protocol violation, read limit, CloseRead + data message, NetConn wrong type, wsjson invalid document, concurrent Close calls, local Close crossing a peer Close} with the raw peer echoing early, late (while still sending pings and data) or never, and in half of the scenarios not reading for 100 ms around the close while three callers with 1-4 ms contexts keep giving up in the queue behind the stuck frame; " +
 			"the raw peer records the complete emitted trace until transport EOF and the monitor rejects any data frame or second Close frame after the first Close frame. distinct key = (role, cause, echo mode, agreement, whether writers were still running when the Close frame passed, what followed the Close frame)",
 		Gen:         c16Gen,
 		CaseTimeout: 120 * time.Second,
